@@ -638,7 +638,7 @@ func main() {
 		in.DFault, in.HFault = -1, -1
 		free, dumps := runOnce(in, nil)
 		if free.ErrK != "nil" {
-			out.Count("skipped", "fault-free run reports "+free.ErrK)
+			out.Count("skipped", "fault-free run reports "+free.ErrK+" "+free.ErrText)
 			return
 		}
 		nops, nhooks, npipes := 0, 0, 0
@@ -755,7 +755,7 @@ func main() {
 	r := lib.NewRng(a.Seed)
 	nops := 120
 	if a.Tier == "thorough" {
-		nops = 600
+		nops = 2000
 	}
 	if a.N > 0 {
 		nops = a.N / 25
@@ -778,6 +778,6 @@ func main() {
 		}
 		addOp(kind, in, -1, -1)
 	}
-	out.Extra["rule"] = "see props.d/C05.json"
+	out.Extra["rule"] = "operations = Create / Create(slice) / CreateInBatches / Save (existing row, key-less, preset key of a missing row) / Updates / Delete (no Select, Select(clause.Associations), Select of a subset of Pets, Profile, Languages, Toys), optionally FullSaveAssociations, on generated record graphs (User with belongs-to Company, has-one Profile, 0-3 has-many Pets each with 0-2 polymorphic Toys, 0-3 many-to-many Languages new or existing, 0-2 polymorphic Toys) over a seeded database of 0-2 such users; every operation is run fault-free, then once per driver-operation index (BEGIN, every INSERT/UPDATE/DELETE/SELECT, COMMIT) with that operation failing and once per hook invocation with that hook returning an error, each from the same database state; one case per run; distinct = distinct (operation kind, options, event sequence, fault position); non-trivial = the operation issues >= 4 driver operations and >= 2 hook invocations. Save of a preset key matching no row with associations + a fault is the known finding, kept out of the generated stream and replayed from corpus/C05."
 	lib.Must(out.Flush())
 }
